@@ -28,6 +28,7 @@ func main() {
 	mutant := flag.String("mutant", "", "apply this mutant (json file) as an in-memory overlay and print the result as JSON; writes no evidence")
 	replay := flag.String("replay", "", "re-run the rule recorded in this report file and print its diagnostic")
 	list := flag.Bool("list", false, "list registered properties")
+	flag.BoolVar(&verbose, "v", false, "print every obligation")
 	flag.Parse()
 
 	if *list {
@@ -62,6 +63,8 @@ func main() {
 	}
 	os.Exit(runProperty(def, *tier, *repo, *verif))
 }
+
+var verbose bool
 
 func seed() int64 {
 	s, _ := strconv.ParseInt(os.Getenv("VERIF_SEED"), 10, 64)
@@ -142,6 +145,11 @@ func runProperty(def *rules.Def, tier, repo, verif string) int {
 	for _, ri := range res.Rules {
 		a := perRule[ri.ID]
 		fmt.Printf("  rule %-20s instances=%d ok=%d violation=%d undecided=%d (floor %d)\n", ri.ID, a[0]+a[1]+a[2], a[0], a[1], a[2], ri.Floor)
+	}
+	if verbose {
+		for _, o := range res.Obls {
+			fmt.Printf("    [%s] %s %s @%s: %s\n", o.Status, o.Rule, o.Construct, o.Pos, o.Msg)
+		}
 	}
 	for _, l := range lines {
 		fmt.Println(l)
